@@ -54,7 +54,7 @@ pub fn dash_model(polys: &[Poly], dashes: &[f32], offset: f32) -> Option<DashMod
     // A dash boundary closer than that to a vertex or to an end of a subpath is a coincidence whose outcome
     // (is there a sliver of a piece, with its caps, or not?) rounding decides.  (Offsets beyond 2e4 come with
     // exactly representable periods, see the generator.)
-    let near = 1e-3 + 4e-7 * (offset.abs() as f64).min(2.0e4);
+    let near0 = 1e-3 + 4e-7 * (offset.abs() as f64).min(2.0e4);
     // phase -> (on?, distance to the end of the current entry)
     let state_at = |phase: f64| -> (usize, f64) {
         let mut p = phase.rem_euclid(period);
@@ -86,6 +86,12 @@ pub fn dash_model(polys: &[Poly], dashes: &[f32], offset: f32) -> Option<DashMod
         if total == 0.0 {
             continue;
         }
+        // the library walks a segment by subtracting one dash after the other from its remaining length in f32:
+        // the phase drifts by up to half an ulp of that length per dash, which adds up to hundredths of a pixel
+        // on subpaths that carry hundreds of dashes
+        let mag = pts.iter().fold(1.0f64, |m, q| m.max(q.0.abs()).max(q.1.abs())).max(total / (pts.len() as f64));
+        let n_est = total / (period / d.len() as f64);
+        let near = near0 + n_est * 1.2e-7 * mag;
         // a dash boundary that coincides with the subpath's start (or, for a closed subpath, its end) is a
         // float coincidence too: whether "a new dash starts exactly here" is a rounding matter
         {
